@@ -129,6 +129,20 @@ def _check_helper(rep: Report, cfg, name: str, fn: ast.FunctionDef, r: Rendered)
             viol("R12.1c", "missing tag handling", "a missing discriminator key must raise MissingDiscriminatorError(field) and nothing else")
             return
         rep.ok("R12.1c", f"{name}: missing key -> MissingDiscriminatorError", None, nontrivial=False)
+        # the tag is read from exactly the configured key: one subscript whose key is the discriminator's field itself
+        sub = body[0].body[0].value
+        key_ok = False
+        if isinstance(sub, ast.Subscript) and isinstance(sub.value, ast.Name) and sub.value.id == "value" and (
+                (isinstance(sub.slice, ast.Constant) and isinstance(sub.slice.value, str)) or isinstance(sub.slice, ast.Name)):
+            h = r.hole_of(sub.slice.value if isinstance(sub.slice, ast.Constant) else sub.slice.id)
+            key_ok = h is not None and show(h.val) == "discriminator.field" and h.conv in ("r", "!r") and not getattr(h, "more", False)
+            if h is not None and not key_ok:
+                rep.notes.append(f"R12.1i: key hole {show(h.val)!r} conv={h.conv!r}")
+        if key_ok:
+            rep.ok("R12.1i", f"{name}: the tag is read as value[<discriminator.field>]", None, nontrivial=False)
+        else:
+            viol("R12.1i", f"tag read as `{D(sub)}`", "the tag must be read from exactly the configured key (the field string is data, not a path or pattern): "
+                 "otherwise a correct input is rejected as lacking the discriminator and another shape is accepted in its place")
         t2 = body[1]
         if not (isinstance(t2, ast.Try) and len(t2.body) == 1 and isinstance(t2.body[0], ast.Return) and "[discriminator]" in ast.unparse(t2.body[0])):
             viol("R12.1a", "registry look-up", "the dispatcher must first look the tag up in the variant registry")
@@ -331,3 +345,6 @@ LEVEL_TEXT += _ADD6
 _ADD7 = ' R12.7: iter_all_subclasses walks the whole subclass tree unconditionally.'
 EXPLANATION += _ADD7
 LEVEL_TEXT += _ADD7
+_ADD9 = ' R12.1i: the tag is read as value[<field>] with the configured field string as the single key.'
+EXPLANATION += _ADD9
+LEVEL_TEXT += _ADD9
